@@ -1238,3 +1238,82 @@ func ruleAuthStateGuarded(c *core.Ctx, lc *core.LockCache, rule string) {
 		c.Undecided(rule, "bus.channel", token.NoPos, "no access to the authentication state of a channel found")
 	}
 }
+
+// ruleNoLockCopies: a method that takes or releases a mutex of its receiver
+// has a pointer receiver.  With a value receiver the struct — mutex included —
+// is copied on every call: the lock is taken on a private copy while the maps
+// and slices behind it stay shared, so readers and writers are no longer kept
+// apart (concurrent map read and map write aborts the process), and a mutex
+// copied in its locked state blocks the caller for ever.
+func ruleNoLockCopies(c *core.Ctx, rule string, fns []*ssa.Function) int {
+	n := 0
+	for _, fn := range fns {
+		if fn.Signature.Recv() == nil || fn.Parent() != nil || len(fn.Params) == 0 {
+			continue
+		}
+		rt := fn.Signature.Recv().Type()
+		if _, isPtr := rt.(*types.Pointer); isPtr {
+			continue
+		}
+		st, ok := rt.Underlying().(*types.Struct)
+		if !ok {
+			continue
+		}
+		for _, call := range core.Calls(fn) {
+			op, isOp := core.LockOpOf(call)
+			if !isOp {
+				continue
+			}
+			// the mutex operated on lives in the receiver (the copy)
+			root := core.RootOf(call.Common().Args[0])
+			if root != ssa.Value(fn.Params[0]) {
+				if al, isAl := root.(*ssa.Alloc); !isAl || core.SingleDef(al) != ssa.Value(fn.Params[0]) {
+					continue
+				}
+			}
+			_ = st
+			n++
+			c.Fail(rule, fmt.Sprintf("lock-copied@%s", core.FuncKey(fn)), call.Pos(), fmt.Sprintf("%s has a value receiver and operates on %s of that receiver: the struct and its mutex are copied on every call, so the lock protects nothing (the maps behind it are shared: a read overlapping a write aborts the process) and a mutex copied while held blocks for ever", core.FuncKey(fn), op.Class))
+			break
+		}
+	}
+	return n
+}
+
+// ruleNoErrorBuiltAndDropped: an error value that is constructed (fmt.Errorf,
+// errors.New) is used — returned, sent, logged, stored.  One that is built and
+// never looked at is the trace of an assignment to a shadowed variable
+// (if err := f(); err != nil { err = fmt.Errorf(…) } … return err): the
+// failure it describes is not reported and the caller goes on with a zero
+// result.
+func ruleNoErrorBuiltAndDropped(c *core.Ctx, rule string, rels ...string) int {
+	n, bad := 0, 0
+	for _, rel := range withExamples(rels) {
+		for _, fn := range c.RepoFuncs(rel) {
+			if c.IsTestFile(fn) || !notExample(fn) {
+				continue
+			}
+			for i, call := range core.Calls(fn) {
+				cv, ok := call.(*ssa.Call)
+				if !ok {
+					continue
+				}
+				f := cv.Call.StaticCallee()
+				if f == nil {
+					continue
+				}
+				k := core.FuncKey(f)
+				if k != "fmt.Errorf" && k != "errors.New" {
+					continue
+				}
+				n++
+				if len(core.Referrers(cv)) == 0 {
+					bad++
+					c.Fail(rule, fmt.Sprintf("dropped-error@%s#%d", core.FuncKey(fn), i), cv.Pos(), "an error is built here and never used: it was assigned to a variable that shadows the one returned (or to nothing), so the failure it describes is not reported and the caller goes on with a zero or partial result")
+				}
+			}
+		}
+	}
+	c.Pass(rule, "errors-built/"+strings.Join(rels, ","), token.NoPos, fmt.Sprintf("%d constructed errors examined, %d never used", n, bad))
+	return bad
+}
